@@ -1,6 +1,8 @@
 (* C03 monitor runner.
    h <raised 0|1> <v> <code> <label|N> <gfx> <gff> <map> <sfx> <music>  <v'> <code'> <label'|N> <gfx'> <gff'> <map'> <sfx'> <music'> <file1> <file2>
        -> true | false
+   s <raised 0|1> <v> <code> <label|N> <gfx> <gff> <map> <sfx> <music>  <v'> <code'> <label'|N> <gfx'> <gff'> <map'> <sfx'> <music'>
+       -> true | false      (holds_C03_short: the first cart holds only the rows a short-section file spells out)
    hl <line> -> true | false      (header_like)
    cf <code> -> true | false      (code_in_format) *)
 let label_of s = if s = "N" then None else Some (bytes_of_hex s)
@@ -13,6 +15,8 @@ let handle fields =
   | ["h"; raised; v; code; lbl; gfx; gff; map; sfx; music; v2; code2; lbl2; gfx2; gff2; map2; sfx2; music2; f1; f2] ->
     b (holds_C03 (mk v code lbl gfx gff map sfx music) (raised = "1") (mk v2 code2 lbl2 gfx2 gff2 map2 sfx2 music2)
          (bytes_of_hex f1) (bytes_of_hex f2))
+  | ["s"; raised; v; code; lbl; gfx; gff; map; sfx; music; v2; code2; lbl2; gfx2; gff2; map2; sfx2; music2] ->
+    b (holds_C03_short (mk v code lbl gfx gff map sfx music) (raised = "1") (mk v2 code2 lbl2 gfx2 gff2 map2 sfx2 music2))
   | ["hl"; l] -> b (header_like (bytes_of_hex l))
   | ["cf"; c] -> b (code_in_format (bytes_of_hex c))
   | _ -> failwith "bad request"
